@@ -1,6 +1,75 @@
 //! Native replay of a CBMC counterexample: feeds the recorded symbolic values
 //! to the same harness body, compiled against the real hashbrown.
+// Tracking allocator: the native counterpart of the CBMC object-bounds oracle
+// used by the C09 harnesses (size of the live allocation starting at p).
+use std::alloc::{GlobalAlloc, Layout, System};
+use std::sync::atomic::{AtomicUsize, Ordering::SeqCst};
+const SLOTS: usize = 1 << 16;
+static PTRS: [AtomicUsize; SLOTS] = [const { AtomicUsize::new(0) }; SLOTS];
+static SIZES: [AtomicUsize; SLOTS] = [const { AtomicUsize::new(0) }; SLOTS];
+fn slot_of(p: usize) -> usize {
+    (p >> 4) % SLOTS
+}
+fn record(p: usize, sz: usize) {
+    let mut i = slot_of(p);
+    for _ in 0..SLOTS {
+        let cur = PTRS[i].load(SeqCst);
+        if cur == 0 || cur == 1 || cur == p {
+            PTRS[i].store(p, SeqCst);
+            SIZES[i].store(sz, SeqCst);
+            return;
+        }
+        i = (i + 1) % SLOTS;
+    }
+}
+fn find(p: usize) -> Option<usize> {
+    let mut i = slot_of(p);
+    for _ in 0..SLOTS {
+        let cur = PTRS[i].load(SeqCst);
+        if cur == 0 {
+            return None;
+        }
+        if cur == p {
+            return Some(i);
+        }
+        i = (i + 1) % SLOTS;
+    }
+    None
+}
+struct Tracking;
+unsafe impl GlobalAlloc for Tracking {
+    unsafe fn alloc(&self, l: Layout) -> *mut u8 {
+        let p = System.alloc(l);
+        if !p.is_null() {
+            record(p as usize, l.size());
+        }
+        p
+    }
+    unsafe fn dealloc(&self, p: *mut u8, l: Layout) {
+        if let Some(i) = find(p as usize) {
+            PTRS[i].store(1, SeqCst);
+        }
+        System.dealloc(p, l)
+    }
+    unsafe fn realloc(&self, p: *mut u8, l: Layout, new_size: usize) -> *mut u8 {
+        let q = System.realloc(p, l, new_size);
+        if !q.is_null() {
+            if let Some(i) = find(p as usize) {
+                PTRS[i].store(1, SeqCst);
+            }
+            record(q as usize, new_size);
+        }
+        q
+    }
+}
+#[global_allocator]
+static GLOBAL: Tracking = Tracking;
+fn alloc_query(p: *const u8) -> Option<usize> {
+    find(p as usize).map(|i| SIZES[i].load(SeqCst))
+}
+
 fn main() {
+    let _ = lru_mem::verif_harness::memsize::ALLOC_QUERY.set(alloc_query);
     let path = std::env::args().nth(1).expect("usage: replay-runner <cex.json>");
     let s = std::fs::read_to_string(path).unwrap();
     // minimal JSON reading: {"harness": "...", "vals": [[..],[..]]}
